@@ -27,6 +27,8 @@ ASSUMPTIONS = [
 NOT_DECIDED = ["contract_with_unroll / oe_blocksparse (opt_einsum-driven, 1.1 kLoC): no contract attempted",
                "svd/qr inside operation sequences enter only through their structural contract (C04)"]
 
+from contracts.c03 import h_unfuse_lazy      # unfuse_legs under a pending transposition == after materialising it
+
 POLICIES = ('fuse_to_matrix', 'fuse_contracted', 'no_fusion')
 
 
@@ -126,4 +128,6 @@ def units(tier):
                 if not th and len(MOD[sym]) > 1 and nd == 3 and lt > 1:
                     continue
                 U.append(('h_fuse_meta', f"{sym},nd={nd},axes={axes},trans={trans},lt={lt}", dict(sym=sym, nd=nd, lt=lt, axes=axes, trans=trans)))
+        for (nd, axes, perm) in [(5, ((0, 1), (2, 3, 4)), (1, 0)), (5, ((0, 1), 2, (3, 4)), (2, 0, 1))]:
+            U.append(('h_unfuse_lazy', f"{sym},nd={nd},axes={axes},perm={perm},lt=1,which=all", dict(sym=sym, nd=nd, lt=1, axes=axes, perm=perm, which='all')))
     return U
